@@ -103,6 +103,22 @@ pub fn plan_for(property: &str) -> Option<(&'static str, Vec<PlanItem>)> {
                 PlanItem { family: "mtu_peer_sizes", run: c14_tx, quick: 2000, thorough: 60000, determinism_check: false },
             ],
         ),
+        "C08" => (
+            "C08",
+            vec![PlanItem { family: "lifecycle", run: c08_life, quick: 3000, thorough: 100000, determinism_check: true }],
+        ),
+        "C10" => (
+            "C10",
+            vec![
+                PlanItem { family: "hostile", run: c10_hostile, quick: 3000, thorough: 100000, determinism_check: true },
+                PlanItem { family: "duplex_scan", run: c10_duplex_scan, quick: 3000, thorough: 60000, determinism_check: false },
+                PlanItem { family: "script_scan", run: c10_script_scan, quick: 6000, thorough: 120000, determinism_check: false },
+            ],
+        ),
+        "C12" => (
+            "C12",
+            vec![PlanItem { family: "multi", run: c12_multi, quick: 3000, thorough: 100000, determinism_check: true }],
+        ),
         "C17" => (
             "C17",
             vec![PlanItem { family: "handshake", run: c17_hs, quick: 8000, thorough: 250000, determinism_check: true }],
@@ -592,6 +608,229 @@ fn c14_tx(ctx: &CaseCtx) -> CaseReport {
     rep.nontrivial = rep.counters.get("c14_datagram_sizes_checked") > 4;
     let end = run.end_time;
     finish(&mut rep, ctx, &view, run.events, end);
+    rep
+}
+
+fn multi_params<'a>(cfg: &crate::fam::multi::MultiCfg, case_seed: u64, results: &'a std::collections::BTreeMap<u32, crate::fam::multi::ConnResult>, perfect: bool, property: &'static str) -> mon::c12::Params<'a> {
+    use crate::fam::multi as m;
+    let mut limits = std::collections::BTreeMap::new();
+    for i in 0..cfg.n_sockets {
+        // DEFAULT_MAX_ACTIVE_STREAMS_PER_SOCKET when not configured; the dispatcher reports the
+        // effective limit itself in SocketTables, this map only serves the object-count rule
+        if let Some(l) = cfg.socks[i].max_live_vsocks {
+            limits.insert(m::sock_addr(i), l);
+        }
+    }
+    let plans = (0..cfg.connects.len() as u32).map(|k| (k, m::conn_plan(case_seed, k, cfg.plan_params()))).collect();
+    mon::c12::Params {
+        limits,
+        results,
+        plans,
+        perfect_network: perfect,
+        connect_timeout: cfg.connect_timeout,
+        exempt: Default::default(),
+        property,
+        skip_known_causes: false,
+        target_pair: None,
+    }
+}
+
+fn c12_multi(ctx: &CaseCtx) -> CaseReport {
+    use crate::fam::multi as m;
+    let mut rep = CaseReport::new(ctx.family, ctx.index, ctx.case_seed);
+    let max_total = if ctx.tier == Tier::Quick { 20_000 } else { 60_000 };
+    let g = m::generate(ctx.case_seed, m::Flavour::Isolation, max_total);
+    rep.desc = format!("{} plan[{}]", g.cfg.describe(), g.plan_desc);
+    let run = m::run_multi(ctx.case_seed, &g.cfg, g.plan);
+    if let Some(p) = &run.panicked {
+        rep.counters.inc("cases_with_panic");
+        rep.inconclusive.push(format!("panic during the run: {p}"));
+    }
+    if run.deadline_hit {
+        rep.counters.inc("deadline_hit_cases");
+    }
+    let view = WireView::build(&run.events);
+    let empty = Default::default();
+    let results = run.result.as_ref().map(|o| &o.results).unwrap_or(&empty);
+    let params = multi_params(&g.cfg, ctx.case_seed, results, g.perfect_network && run.result.is_some(), "C12");
+    mon::c12::check(&mut rep, &run.events, &view, ctx.case_seed, &params);
+    rep.counters.add("datagrams", view.pkts.len() as u64);
+    rep.counters.add("connections_attempted", g.cfg.connects.len() as u64);
+    rep.nontrivial = rep.counters.get("c12_connections_established") >= 2;
+    let end = run.end_time;
+    finish(&mut rep, ctx, &view, run.events, end);
+    rep
+}
+
+fn c08_life(ctx: &CaseCtx) -> CaseReport {
+    use crate::fam::lifecycle as lf;
+    let mut rep = CaseReport::new(ctx.family, ctx.index, ctx.case_seed);
+    let (cfg, plan, pdesc) = lf::generate(ctx.case_seed);
+    let lossy = plan.loss > 0.0;
+    rep.desc = format!("{} plan[{}]", cfg.describe(), pdesc);
+    let run = lf::run_life(ctx.case_seed, &cfg, plan);
+    if let Some(p) = &run.panicked {
+        rep.counters.inc("cases_with_panic");
+        rep.inconclusive.push(format!("panic during the run: {p}"));
+    }
+    if run.deadline_hit {
+        rep.inconclusive.push("virtual deadline hit".into());
+    }
+    let view = WireView::build(&run.events);
+    mon::c08::check(&mut rep, &run.events, &cfg, run.result.as_ref(), ctx.case_seed, run.end_time, lossy);
+    for r in &cfg.rounds {
+        for c in &r.conns {
+            rep.labels.push(format!("{:?}/{:?}", c.3, r.fault));
+        }
+    }
+    rep.counters.add("datagrams", view.pkts.len() as u64);
+    rep.nontrivial = rep.counters.get("c08_connection_ends_judged") >= 2;
+    let end = run.end_time;
+    finish(&mut rep, ctx, &view, run.events, end);
+    rep
+}
+
+fn c10_hostile(ctx: &CaseCtx) -> CaseReport {
+    use crate::fam::multi as m;
+    let mut rep = CaseReport::new(ctx.family, ctx.index, ctx.case_seed);
+    let max_total = if ctx.tier == Tier::Quick { 20_000 } else { 60_000 };
+    let mut g = m::generate(ctx.case_seed, m::Flavour::Hostile, max_total);
+    g.cfg.keep_snapshots = ctx.index % 4 == 0;
+    rep.desc = format!("{} plan[{}]", g.cfg.describe(), g.plan_desc);
+    let run = m::run_multi(ctx.case_seed, &g.cfg, g.plan);
+    if run.deadline_hit {
+        rep.counters.inc("deadline_hit_cases");
+    }
+    let view = WireView::build_opts(&run.events, false);
+    mon::c10::check_no_panic_no_bug(&mut rep, &run.events, &run.panicked);
+    let empty = Default::default();
+    let results = run.result.as_ref().map(|o| &o.results).unwrap_or(&empty);
+    let mut params = multi_params(&g.cfg, ctx.case_seed, results, g.perfect_network && run.result.is_some(), "C10");
+    let aimed = g.cfg.attack.as_ref().map(|a| a.aim_at_conn0).unwrap_or(false);
+    params.skip_known_causes = true;
+    if aimed {
+        params.exempt.insert(0);
+        let (_, f, t) = g.cfg.connects[0];
+        params.target_pair = Some((m::sock_addr(t), m::sock_addr(f)));
+    }
+    // bystanders: content, demultiplexing, table rules, completion
+    mon::c12::check(&mut rep, &run.events, &view, ctx.case_seed, &params);
+    // service after the attack
+    if g.perfect_network && run.result.is_some() {
+        for k in &g.cfg.late_connects {
+            let r = results.get(&(*k as u32));
+            let ok = r.map(|r| r.connected_at.is_some() && r.accepted_on.is_some()).unwrap_or(false);
+            rep.counters.inc("c10_post_attack_connects_checked");
+            if !ok {
+                rep.violate(
+                    "C10",
+                    "service",
+                    format!("a connect issued after the attack was not served: {}", r.and_then(|r| r.connect_error.clone()).unwrap_or_else(|| "connected but never accepted".into())),
+                    format!("connection {k} {:?}", g.cfg.connects[*k]),
+                    None,
+                );
+            }
+        }
+    }
+    if g.cfg.keep_snapshots {
+        let cfgs = (0..g.cfg.n_sockets).map(|i| (m::sock_addr(i), g.cfg.socks[i].clone())).collect();
+        mon::c10::check_bounded(&mut rep, &run.events, &cfgs);
+    }
+    let mut hostile = 0u64;
+    let mut hostile_recv = 0u64;
+    for p in &view.pkts {
+        if p.scripted {
+            hostile += 1;
+            hostile_recv += p.recvs.len() as u64;
+        }
+    }
+    rep.counters.add("c10_hostile_datagrams_sent", hostile);
+    rep.counters.add("c10_hostile_datagrams_handed_to_sockets", hostile_recv);
+    for e in &run.events {
+        if let crate::events::Ev::Note(n) = &e.ev {
+            if let Some(rest) = n.strip_prefix("attack done: ") {
+                if let Some(k) = rest.split("kinds=").nth(1) {
+                    for part in k.trim_matches(|c| c == '{' || c == '}').split(", ") {
+                        if let Some((name, cnt)) = part.split_once(": ") {
+                            rep.counters.add(&format!("c10_kind_{}", name.trim_matches('"')), cnt.parse().unwrap_or(0));
+                        }
+                    }
+                }
+            }
+        }
+    }
+    if aimed {
+        rep.counters.inc("c10_cases_aimed_at_a_live_connection");
+        // what became of the target
+        let t = results.get(&0);
+        let broke = t.map(|r| r.error[0].is_some() || r.error[1].is_some()).unwrap_or(true);
+        rep.counters.inc(if broke { "c10_target_connection_broken" } else { "c10_target_connection_survived" });
+    }
+    rep.counters.add("datagrams", view.pkts.len() as u64);
+    rep.nontrivial = hostile_recv >= 10 && rep.counters.get("c12_connections_established") >= 2;
+    let end = run.end_time;
+    finish(&mut rep, ctx, &view, run.events, end);
+    rep
+}
+
+/// Panics and internal-bug errors are looked for in the general duplex family as well (faults,
+/// chaos, resets, cancellations - no attacker).
+fn c10_duplex_scan(ctx: &CaseCtx) -> CaseReport {
+    let mut rep = CaseReport::new(ctx.family, ctx.index, ctx.case_seed);
+    let g = duplex::generate(ctx.case_seed, Profile::General, 200_000);
+    rep.desc = format!("{} plan[{}]", g.cfg.describe(), g.plan_desc);
+    let run = duplex::run_duplex(ctx.case_seed, &g.cfg, g.plan);
+    let view = WireView::build(&run.events);
+    mon::c10::check_no_panic_no_bug(&mut rep, &run.events, &run.panicked);
+    rep.counters.add("datagrams", view.pkts.len() as u64);
+    rep.nontrivial = view.pkts.len() > 10;
+    let end = run.end_time;
+    finish(&mut rep, ctx, &view, run.events, end);
+    rep
+}
+
+/// The scripted-peer families drive the connection through states and stimuli the duplex family
+/// rarely reaches (illegal packet types per state, hostile ACK/window policies, garbage ahead of
+/// the window); scan them for panics and internal-bug errors too.
+fn c10_script_scan(ctx: &CaseCtx) -> CaseReport {
+    let mut rep = CaseReport::new(ctx.family, ctx.index, ctx.case_seed);
+    let (events, panicked, end) = match ctx.index % 4 {
+        0 | 1 => {
+            use crate::fam::hsscript as hs;
+            let cfg = hs::generate_hostile(ctx.case_seed);
+            rep.desc = format!("hs-hostile {}", cfg.describe());
+            let snapshots = ctx.index % 8 == 0;
+            let run = hs::run_hs(ctx.case_seed, &cfg, snapshots);
+            if snapshots {
+                let real_addr = if cfg.ipv6 { crate::sim::v6(hs::REAL_PORT) } else { crate::sim::v4(hs::REAL_PORT) };
+                let cfgs = [(real_addr, cfg.sock.clone())].into_iter().collect();
+                mon::c10::check_bounded(&mut rep, &run.events, &cfgs);
+            }
+            rep.counters.add("c10_hostile_peer_datagrams", cfg.script.iter().filter(|a| matches!(a, hs::Act::PeerHostile(_))).count() as u64);
+            (run.events, run.panicked, run.end_time)
+        }
+        2 => {
+            use crate::fam::rxscript as rx;
+            let cfg = rx::generate(ctx.case_seed, if ctx.index % 8 == 2 { rx::RxFocus::Honesty } else { rx::RxFocus::Timing }, 300);
+            rep.desc = format!("rx {}", cfg.describe());
+            let run = rx::run_rx(ctx.case_seed, &cfg);
+            (run.events, run.panicked, run.end_time)
+        }
+        _ => {
+            use crate::fam::txscript as tx;
+            let focus = *crate::prng::Prng::new(ctx.case_seed).pick(&[tx::TxFocus::Window, tx::TxFocus::Retransmit, tx::TxFocus::Nagle, tx::TxFocus::Buffer, tx::TxFocus::Mtu]);
+            let cfg = tx::generate(ctx.case_seed, focus, 100_000);
+            rep.desc = format!("tx {}", cfg.describe());
+            let run = tx::run_tx(ctx.case_seed, &cfg);
+            (run.events, run.panicked, run.end_time)
+        }
+    };
+    let view = WireView::build(&events);
+    mon::c10::check_no_panic_no_bug(&mut rep, &events, &panicked);
+    rep.counters.add("datagrams", view.pkts.len() as u64);
+    rep.counters.add("c10_scripted_peer_datagrams", view.pkts.iter().filter(|p| p.scripted).count() as u64);
+    rep.nontrivial = view.pkts.len() > 3;
+    finish(&mut rep, ctx, &view, events, end);
     rep
 }
 
@@ -1116,6 +1355,9 @@ pub fn duplex_causes(case_seed: u64, events: &[crate::events::Event], view: &Wir
     }
     if mon::diag::reassembler_refused_data(events, view, 0) {
         out.push("reassembler-refused-in-window-data".to_string());
+    }
+    if mon::diag::ended_with_unsent_segment_larger_than_window(events) {
+        out.push("unsent-segment-cut-for-a-larger-window".to_string());
     }
     out
 }
